@@ -134,6 +134,28 @@ def run(facts, res):
                             ok_none = True
                         if inner[0] == "agg" and inner[2] == "Some" and l.truth is False:
                             ok_some = True
+            # `unchanged` (None) presupposes a live winner: the order at a deleted descriptor is the empty array, so an
+            # empty script against it would leave the array deleted although it was just submitted (as `[]`)
+            def live_winner(body, block):
+                return any(l.kind == "call" and callee_name(l.term) == "is_deleted" and l.truth is False and l.term[2] and
+                           contains_call(l.term[2][0], "get_winner") for l in lits_of(body, block, facts))
+            none_sites = []
+            for ob, st in assigns_of_return(cd, "Ok"):
+                t = du.rvalue_term(st.rv, 10)
+                inner = peel(t[3][0]) if t[3] else ("cut",)
+                if inner[0] == "agg" and inner[2] == "None":
+                    none_sites.append(ob)
+            callers_ok = True
+            cs_ = [s_ for s_ in cg_of(facts).callers_of(cd.path) if s_.body.path != cd.path]
+            for s_ in cs_:
+                callers_ok = callers_ok and live_winner(s_.body, s_.block)
+            live_ok = bool(none_sites) and (all(live_winner(cd, ob) for ob in none_sites) or (bool(cs_) and callers_ok))
+            res.instance("U2", cd.name + ": `unchanged` (None) only for a winner that is not a deletion: %s" % live_ok, cd.loc())
+            if not live_ok:
+                res.violation("U2", "diff-maker|unchanged-although-winner-deleted",
+                              cd.name + " reports `unchanged` (None) for an empty edit script without testing that the winner is not a deletion: "
+                              "the order at a deleted descriptor is [], so re-submitting the array as [] leaves its descriptor deleted and read() "
+                              "cannot resolve the reference", cd.loc())
             base_ok = False
             for bi, t in cd.calls():
                 if t.callee is not None and t.callee.name == "make_diff_patch":
@@ -158,6 +180,71 @@ def run(facts, res):
                             if x[0] == "const" and x[1] == "str":
                                 out.add(x[2])
         return out
+    # ------------------------------------------------------------------ U4 references are uniquely decodable
+    res.rule("U4", "object references are uniquely decodable: no accepted identifier carries a prefix the decoder dispatches on; generated identifiers are injective in the path")
+    gi = facts.body("utils::generate_identifier")
+    ufb = facts.body("utils::unflatten")
+    if gi is None or ufb is None:
+        res.floor("U4", "generate_identifier / unflatten", 0, 2)
+    else:
+        def prefix_consts(body, t):
+            """string constants a `starts_with`-like test in term t compares with (through the crate's own predicates)"""
+            out = set()
+            for x in walk(t):
+                if x[0] != "call" or x[4] is None:
+                    continue
+                if callee_name(x) in ("starts_with", "strip_prefix"):
+                    for a in x[2][1:]:
+                        out |= {y[2] for y in walk(a) if y[0] == "const" and y[1] == "str"}
+                tb = facts.body(x[4].target())
+                if tb is not None and tb.path.startswith("utils::") and tb.local_ty(0) == "bool":
+                    out |= consts_of(tb.path, {"starts_with"}) or set()
+            return out
+        # decoder: prefixes of a string *value* on which unflatten dispatches
+        dec = set()
+        for cb in [ufb] + facts.closures_of(ufb.path):
+            for bi in range(len(cb.blocks)):
+                for l in lits_of(cb, bi, facts):
+                    if l.kind == "call" and l.truth is True:
+                        dec |= prefix_consts(cb, l.term)
+        # encoder: prefixes for which generate_identifier refuses a user identifier
+        rej = set()
+        for ob, st in assigns_of_return(gi, "Err"):
+            for l in lits_of(gi, ob, facts):
+                if l.kind == "call" and l.truth is True:
+                    rej |= prefix_consts(gi, l.term)
+        res.instance("U4", "unflatten dispatches on the prefixes %s of a string value; generate_identifier rejects user identifiers starting with %s" % (sorted(dec), sorted(rej)), gi.loc())
+        res.floor("U4", "decoder prefixes", len(dec), 2)
+        for pfx in sorted(dec - rej):
+            res.violation("U4", "generate_identifier|accepts-identifier-with-decoder-prefix:%s" % pfx,
+                          "generate_identifier accepts a user identifier that starts with %r, but unflatten decides by that prefix that a string is not an "
+                          "object reference: the reference to such an object is decoded as something else and the object disappears from the document" % pfx, gi.loc())
+        # generated identifiers: digest of an injective encoding of the path
+        n_gen = 0
+        for bi, t in gi.calls():
+            if t.callee is None or t.callee.target() != "utils::digest_string":
+                continue
+            n_gen += 1
+            a = arg_term(gi, t, 0, 16)
+            joins = [x for x in walk(a) if x[0] == "call" and callee_name(x) == "join"]
+            inj = True
+            why = ""
+            for j in joins:
+                comp = j[2][0] if j[2] else ("cut",)
+                mapped = any(x[0] == "call" and callee_name(x) in ("map", "collect") for x in walk(comp))
+                if not mapped:
+                    inj = False
+                    sep = [y[2] for y in walk(j[2][1]) if y[0] == "const"] if len(j[2]) > 1 else []
+                    why = "plain join of the path components with separator %r" % (sep[0] if sep else "?")
+            if not joins and not any(x[0] == "call" and callee_name(x) in ("to_string", "to_vec", "to_value") and "serde_json" in ((x[4].path if x[4] else "") or "") for x in walk(a)):
+                inj, why = False, "unrecognised path encoding"
+            res.instance("U4", "generated identifier = digest of an injective encoding of the path: %s %s" % (inj, why), gi.loc(t.line))
+            if not inj:
+                res.violation("U4", "generate_identifier|path-encoding-not-injective",
+                              "generate_identifier hashes a non-injective encoding of the path (%s): path components are arbitrary user strings, so different "
+                              "paths (['x','yz'] and ['xy','z']) give the same generated identifier and two objects of one document collapse into one" % why, gi.loc(t.line))
+        res.floor("U4", "generated-identifier sites", n_gen, 1)
+
     pre = facts.const_str("constants::STRING_ESCAPE_PREFIX")
     e1 = consts_of("utils::escape", {"to_string", "add"})
     e2 = consts_of("utils::unescape", {"strip_prefix"})
